@@ -272,6 +272,27 @@ def run(ctx):
                 r.fail(conv, c, "%s under extra condition %s" % (norm(c), norm(extra[0].ast)),
                        "the option %r is emitted only under a further condition (%s%s): styles combining attributes lose it" %
                        (c.args[0].value, "not " if extra[0].kind == "F" else "", norm(extra[0].ast)))
+    # table form: pairs (style.is_X(), "name") in a literal, filtered by a comprehension `[name for on, name in pairs if on]`
+    ldefs = {}
+    for n in walk_no_nested(conv.node):
+        if isinstance(n, ast.Assign) and len(n.targets) == 1 and isinstance(n.targets[0], ast.Name):
+            ldefs.setdefault(n.targets[0].id, []).append(n.value)
+    for comp in [n for n in ast.walk(conv.node) if isinstance(n, (ast.ListComp, ast.GeneratorExp)) and len(n.generators) == 1]:
+        g = comp.generators[0]
+        src = g.iter
+        if isinstance(src, ast.Name) and len(ldefs.get(src.id, [])) == 1:
+            src = ldefs[src.id][0]
+        if not (isinstance(src, (ast.Tuple, ast.List)) and isinstance(g.target, ast.Tuple) and len(g.target.elts) == 2 and all(isinstance(x, ast.Name) for x in g.target.elts)):
+            continue
+        a_, b_ = g.target.elts[0].id, g.target.elts[1].id
+        if not (isinstance(comp.elt, ast.Name) and len(g.ifs) == 1 and isinstance(g.ifs[0], ast.Name) and {comp.elt.id, g.ifs[0].id} == {a_, b_}):
+            continue
+        flag_pos = 0 if g.ifs[0].id == a_ else 1
+        for el in src.elts:
+            if isinstance(el, ast.Tuple) and len(el.elts) == 2:
+                fl, nm = el.elts[flag_pos], el.elts[1 - flag_pos]
+                if isinstance(fl, ast.Call) and isinstance(fl.func, ast.Attribute) and isinstance(nm, ast.Constant):
+                    emitted[fl.func.attr] = (nm.value, fl)
     try:
         ptree, _, pdig = load_dependency_module("pastel/style.py")
     except AnalysisError as e:
@@ -338,7 +359,10 @@ def run(ctx):
                            (cls.name, mname, ", ".join(sorted({"foreground", "background", "options"} - set(fields))) or "the converter"))
     fm = ansi.methods.get("format")
     pushes = [c for c in q.calls(fm) if isinstance(c.func, ast.Attribute) and c.func.attr == "push"]
-    if pushes and all(c.args and isinstance(c.args[0], ast.Call) and norm(c.args[0].func).endswith("convert") for c in pushes):
+    conv_locals = {t.id for n in walk_no_nested(fm.node) if isinstance(n, ast.Assign) and isinstance(n.value, ast.Call) and norm(n.value.func).endswith("convert") for t in n.targets if isinstance(t, ast.Name)}
+    other_defs = {t.id for n in walk_no_nested(fm.node) if isinstance(n, ast.Assign) and not (isinstance(n.value, ast.Call) and norm(n.value.func).endswith("convert")) for t in n.targets if isinstance(t, ast.Name)}
+    conv_locals -= other_defs
+    if pushes and all(c.args and ((isinstance(c.args[0], ast.Call) and norm(c.args[0].func).endswith("convert")) or (isinstance(c.args[0], ast.Name) and c.args[0].id in conv_locals)) for c in pushes):
         r.ok("AnsiFormatter.format(style=...) pushes the converted style")
     else:
         r.fail(fm, fm.node, "format(style) conversion", "a style passed for a single call is not converted before it is applied")
@@ -447,8 +471,17 @@ def run(ctx):
     for c in [out_cls] + [k for k in p.subclasses(out_cls, strict=True)]:
         for name, m in sorted(c.methods.items()):
             cfg = ctx.cfg(m)
-            ind_nodes = [n for n in cfg.nodes if n.kind == "stmt" and n.ast is not None and any(
-                isinstance(x, ast.BinOp) and isinstance(x.op, ast.Mult) and any(is_self_attr(y, "_indent") for y in (x.left, x.right)) for x in ast.walk(n.ast))]
+            def applies_indent(tree, depth=0):
+                for x in ast.walk(tree):
+                    if isinstance(x, ast.BinOp) and isinstance(x.op, ast.Mult) and any(is_self_attr(y, "_indent") for y in (x.left, x.right)):
+                        return True
+                    # a private helper of the output that does it
+                    if depth == 0 and isinstance(x, ast.Call) and isinstance(x.func, ast.Attribute) and isinstance(x.func.value, ast.Name) and x.func.value.id == "self" and x.func.attr.startswith("_"):
+                        h = p.lookup_method(c, x.func.attr)
+                        if h is not None and h is not m and applies_indent(h.node, 1):
+                            return True
+                return False
+            ind_nodes = [n for n in cfg.nodes if n.kind == "stmt" and n.ast is not None and applies_indent(n.ast)]
             fmt_nodes = [n for n in cfg.nodes if n.kind in ("stmt", "return") and n.ast is not None and any(
                 isinstance(x, ast.Call) and isinstance(x.func, ast.Attribute) and x.func.attr in ("format", "remove_format") and isinstance(x.func.value, ast.Name) and x.func.value.id == "self"
                 for x in walk_no_nested(n.ast))]
